@@ -40,7 +40,7 @@ def run_check(prop, tier, seed, replay=None):
                 for sc in SF.gen_scenarios(p, 'quick', seed + 17, nsim // 4):
                     srv.append(add_probes(sc, rng) if rng.random() < 0.8 else sc)
             for p in ('C04', 'C05'):
-                for sc in CF.gen_scenarios(p, 'quick', seed + 17, nsim // 2):
+                for sc in CF.gen_scenarios(p, 'quick', seed + 17, nsim // 2, probes=True):
                     cli.append(add_probes(sc, rng) if rng.random() < 0.8 else sc)
         ws = os.path.join(work, 's'); wc = os.path.join(work, 'c'); os.makedirs(ws); os.makedirs(wc)
         ts, i1 = C.run_scenarios(bs, srv, ws) if srv else ([], dict(tool_trouble=[], crashes=[]))
